@@ -22,7 +22,8 @@ def _overtaking(p):
     return any(s.get("op") == "deliver" and s.get("fail") and s.get("kind") in _CRE for s in st)
 
 
-_is_list_plan = lambda p: p.get("src") == "lists" or any("shape" in st for st in p.get("steps", []))
+_LISTS = ("lists", "listsib", "listsibT")
+_is_list_plan = lambda p: p.get("src") in _LISTS or any("shape" in st for st in p.get("steps", []))
 C = dict(
     prop="C08", driver="writerready", level="model_checking",
     model_checks=[
@@ -32,6 +33,10 @@ C = dict(
     ],
     plan_sources=[
         dict(name="lists", module="WriterReq", cfg="WriterReq_PlanQ.cfg", workers=4),
+        # the same list / parent classes after the drop of a SIBLING object with a prefix-related name (orders / orders_eu; database,
+        # collection or list-member level; names containing '_') on the same writer, drop records seeded or made by the writer's own drops
+        dict(name="listsib", module="WriterReq", cfg="WriterReq_PlanSibQ.cfg", workers=4, tiers=["quick"]),
+        dict(name="listsibT", module="WriterReq", cfg="WriterReq_PlanSibT.cfg", workers=8, tiers=["thorough"]),
         dict(name="cases", module="WriterReady", cfg="WriterReady_PlanCases.cfg", workers=4),
         dict(name="histq", module="WriterReady", cfg="WriterReady_PlanHistQ.cfg", workers=8, tiers=["quick"]),
         dict(name="hist2q", module="WriterReady", cfg="WriterReady_PlanHist2Q.cfg", workers=8, tiers=["quick"]),
@@ -47,10 +52,10 @@ C = dict(
     ],
     # every third history also runs under a whole-database name mapping (the downstream holds the objects under the mapped
     # database, the writer's create / drop tables stay keyed by source names)
-    expand_plans=lambda plans, tier: [q for i, p in enumerate([x for x in plans if (x.get("src") != "lists" or _listish(x))
+    expand_plans=lambda plans, tier: [q for i, p in enumerate([x for x in plans if (x.get("src") not in _LISTS or _listish(x))
                                                                  and (x.get("src") not in ("overq", "over", "overr") or _overtaking(x))]) for q in
                                       ([p] + ([dict(p, plan=str(p["plan"]) + "-map", params=dict(p.get("params") or {}, dbmap="x_"))]
-                                              if p.get("src") not in ("cases", "lists") and (i % 3 == 0 or p.get("src") == "directed") else []))],
+                                              if p.get("src") not in ("cases",) + _LISTS and (i % 3 == 0 or p.get("src") == "directed") else []))],
     directed="plans/C08.jsonl",
     # list operations (flush / load / release partitions with live and dropped members, dropped parents): the message classes of
     # WriterReq.tla replayed by the C20 driver, judged here by C08's statement only (acceptor WriterReq_Trace with PROP=C08)
